@@ -266,6 +266,13 @@ func C04(ctx *core.Ctx, r *core.Report) {
 	c04DefaultSites(ctx, r)
 	c04RowProtocol(ctx, r)
 	c04MembersUntilExhausted(ctx, r)
+	c04FoundMemberIsReported(ctx, r)
+	// a read descends into a choice only through the chosen case, nested choices included (C09's rule on the same iterator)
+	{
+		sub := core.NewReport("C09", r.Tier, r.Root, r.Seed)
+		C09(ctx, sub)
+		r.Borrow(sub, "reads-descend-chosen-case")
+	}
 	jsonIO := scopeFuncs(ctx, "nodeutil", "json_rdr.go", "json_wtr.go")
 	floatTextExact(ctx, r, jsonIO, 1)
 	definitionModuleOriginal(ctx, r, jsonIO, 4)
